@@ -270,6 +270,32 @@ fn grid_vec_writer(max: usize) {
     }
 }
 
+/// Vec sinks in particular capacity states (capacity thresholds of 4 KiB, 64 KiB, 1 MiB, 2 MiB +-;
+/// spare capacity 0, 1..n-1, exactly n, more): the result and the Vec are those of std's Vec::write.
+fn vec_capacity_states() {
+    for cap in [16usize, 4096, 65536, (1 << 20) - 1, 1 << 20, (1 << 20) + 5, 2 << 20] {
+        for spare in [0usize, 1, 3, 8, 9, 100] {
+            if spare > cap {
+                continue;
+            }
+            for blen in [1usize, 8, 9, 64] {
+                for all in [false, true] {
+                    let mut v1: Vec<u8> = Vec::with_capacity(cap);
+                    v1.resize(v1.capacity() - spare, 0x33);
+                    let mut v2 = v1.clone();
+                    let data = data_of(blen, 29);
+                    let ctx = jobj! {"capacity" => cap, "spare" => spare};
+                    let c = write_step("Vec<u8>(capacity-state)", &mut v1, &mut v2, &data, all, 0, usize::MAX, &ctx);
+                    if c && v1 != v2 {
+                        v("Vec<u8>(capacity-state)", "write/vec-differs", jobj! {"volatile_len" => v1.len(), "std_len" => v2.len(), "capacity" => cap, "spare" => spare, "buf_len" => blen});
+                    }
+                    out::key(&format!("Vec|capacity{}|spare{}|buf{}|{}", cap, if spare == 0 { "0" } else if spare < blen { "<buf" } else if spare == blen { "=buf" } else { ">buf" }, blen.min(9), all), true);
+                }
+            }
+        }
+    }
+}
+
 fn grid_cursor_writer(max: usize) {
     for room in 0..=max {
         for pos in positions(room) {
@@ -941,6 +967,11 @@ pub fn run(args: &Args) {
             out::case(0, jobj! {"op" => name});
             if let Err(p) = guarded(|| f(max)) {
                 out::viol(&format!("C13/panic/grid-{}/{}", name, panic_sig(&p)), J::s(p));
+            }
+        }
+        if !cfg!(miri) {
+            if let Err(p) = guarded(vec_capacity_states) {
+                out::viol(&format!("C13/panic/vec-capacity-states/{}", panic_sig(&p)), J::s(p));
             }
         }
         out::count("grid_max_len", max as i128);
